@@ -338,6 +338,14 @@ def check_case(case):
                 return failure(sub, case, "rejected with an error, every time",
                                obs[1] if obs[0] == "ok" else dict(parse=attempt, entry=entry), tags=tags,
                                behaviour="accepted" if attempt == 1 else "accepted-on-repeated-parse")
+            if attempt in (1, 3):
+                # ... nor anything that changes what the NEXT valid string means (history: rejected string, then a
+                # plain valid one, through the entry point that has just failed)
+                bad = _atom_probe("s", F(1)) if entry == "BaseUnits" else _quantity_probe()
+                if bad is not None:
+                    return failure(sub, case, dict(then_parsed=bad[0]), dict(then_parsed=bad[1]),
+                                   tags=tags + ["valid-parse-after-rejected", "entry=" + entry],
+                                   behaviour="next-valid-parse-differs")
         return None
     ob = outcome(BaseUnits, text)
     terms = [(t, F(e)) for t, e in expect["terms"]]
@@ -454,6 +462,22 @@ def _atom_probe(t, e):
     if od != ("ok", edims) or not units_ref.close(o[1].magnitude, efac, RTOL):
         return (dict(atom=atext, factor=efac, dims=_dims_json(edims)),
                 dict(atom=atext, read_as=o[1].expression, magnitude=_short(o[1].magnitude)))
+    return None
+
+
+def _quantity_probe():
+    """Quantity(1, 'kg') right after a rejected string: None if it reads as the tables say"""
+    BaseUnits, Quantity = _lib()
+    efac, _ = _REF.terms_factor([("kg", F(1))])
+    edims = _REF.terms_dims([("kg", F(1))])
+    o = outcome(Quantity, 1, "kg", timeout=5)
+    if o[0] == "err":
+        return dict(atom="kg", factor=efac), dict(atom="kg", error=o[1], message=o[2][:120])
+    b = o[1].baseunits
+    od = outcome(lambda: units_ref.dims_from_library(b.dimensions.value()))
+    if od != ("ok", edims) or not units_ref.close(b.magnitude, efac, RTOL) or o[1].value() != 1:
+        return (dict(atom="kg", factor=efac, dims=_dims_json(edims)),
+                dict(atom="kg", read_as=b.expression, magnitude=_short(b.magnitude), value=_short(o[1].value())))
     return None
 
 
